@@ -13,6 +13,8 @@ TABLE = [
     (S / "pool", "MC_Pool.tla", "MC_Pool_origrace.cfg", "NoRace", "F2 as a data race on m_isRunning"),
     (S / "pool", "MC_Pool.tla", "MC_Pool_expiryrace.cfg", "NoRace", "F3: Thread::m_isFinished a plain bool (FinishedAtomic = FALSE)"),
     (S / "pool", "ThreadStart.tla", "MC_ThreadStart_TRUE.cfg", "InvokedLive", "F4: Thread::start captured its callable by reference (ByRef = TRUE)"),
+    (S / "pool", "ThreadStart.tla", "NEG_ThreadStart_noreset.cfg", "FinishedOnlyAfter", "F13: start() did not lower the finished flag of a Thread that is started again (ResetOnStart = FALSE)"),
+    (S / "pool", "ThreadStart.tla", "MC_ThreadStart_restart.cfg", "ok", "two rounds on one Thread object with the flag lowered by start()"),
     (S / "containers", "MC_RingBuffer.tla", "NEG_RingBuffer_physdestroy.cfg", "VictimsAreElements", "F5: RingBuffer::resize destroyed physical slots instead of elements (PhysicalDestroy = TRUE)"),
     (S / "observer", "MC_ConcRouter.tla", "MC_ConcRouter_subscribe.cfg", "NoWriteDuringDelivery", "subscribe under a read lock (Weak = subscribe)"),
     (S / "observer", "MC_ConcRouter.tla", "MC_ConcRouter_unsubscribe.cfg", "NoWriteDuringDelivery", "unsubscribe under a read lock (Weak = unsubscribe)"),
